@@ -13,7 +13,37 @@ import os
 from fractions import Fraction as Fr
 from math import floor, ceil
 
+import vlib
 from vlib import cnat, cnatl, cbool, clist
+
+GEN = os.path.join(vlib.COQ, "Gen", "C06_gen.v")
+
+
+def regen(repo=None):
+    """Tie (T): regenerate coq/Gen/C06_gen.v from the working tree's deap/tools/selection.py and emo.py.
+    Returns (ok, message, status) -- status: function -> None (translated) | Refuse (placeholder = hand model);
+    ok is False when nothing could be translated."""
+    import c06_py2coq
+    repo = repo or vlib.REPO
+    try:
+        txt, status = c06_py2coq.translate_repo(repo)
+    except Exception as e:  # noqa  (a translator crash is a refusal of everything: fail closed)
+        r = c06_py2coq.Refuse("Module", "translator error %s: %s" % (type(e).__name__, e))
+        status = {f[0]: r for f in c06_py2coq.FUNCS}
+        txt, _ = c06_py2coq.translate_sources({"selection": "\x00", "emo": "\x00"})     # all placeholders
+    with vlib.BuildLock():
+        os.makedirs(os.path.dirname(GEN), exist_ok=True)
+        old = open(GEN).read() if os.path.exists(GEN) else None
+        if old != txt:
+            with open(GEN, "w") as f:
+                f.write(txt)
+    done = [k for k, v in status.items() if v is None]
+    refused = ["%s (%s)" % (k, v) for k, v in status.items() if v is not None]
+    msg = "regenerated: %s" % (", ".join(done) or "nothing")
+    if refused:
+        msg += "; translator refused: " + "; ".join(refused)
+    return bool(done), msg, status
+
 
 SIG_EPS = "C06.eps_lexicase_dominated_within_eps"
 EXN = {"IndexError": "IndexError", "ZeroDivisionError": "ZeroDivisionError", "ValueError": "ValueError",
@@ -160,6 +190,34 @@ def main(run):
                         "selTournamentDCD: k <= n and k a multiple of 4; crowding_dist assigned",
                         "k >= 0 (negative k not modelled)"]
     run.build_props()
+    # ---- tie (T): regenerate Gen/C06_gen.v from the working tree, re-prove `regenerated = model` and the theorems
+    gen_check = "check"
+    ok, msg, status = regen()
+    refused = {k: v for k, v in status.items() if v is not None}
+    run.extra_cov["regenerated_functions"] = [k for k, v in status.items() if v is None]
+    run.extra_cov["translator_refused"] = {k: str(v) for k, v in refused.items()}
+    for k, v in refused.items():
+        run.notes.append("tie: correspondence-only (translator refused %s at line %s in %s: %s)" % (v.node, v.line, k, v.why))
+    if ok:
+        gen_ok = run.build_props(props="Props/C06_gen.v")
+        if gen_ok:
+            gen_check = "check_both"
+            run.notes.append("tie: regenerated (%s)" % ", ".join(run.extra_cov["regenerated_functions"]))
+            run.extra_cov["tie"] = ("translation (regenerated definitions proved equal to the hand model: %s) + correspondence%s"
+                                    % (", ".join(run.extra_cov["regenerated_functions"]),
+                                       "; correspondence-only for " + ", ".join(sorted(refused)) if refused else ""))
+            run.trusted.append("translator harness/c06_py2coq.py and its signature table (source text -> coq/Gen/C06_gen.v) with the "
+                               "statement vocabulary coq/Model/C06_GenRt.v; the regenerated definitions are proved equal to the "
+                               "hand model (Proofs/C06_gen_equiv.v) and evaluated against the implementation on every run")
+        else:
+            run.extra_cov["tie"] = "translator succeeded but the regenerated definitions are no longer (provably) the model"
+            try:        # keep the offending text for the replay
+                with open(os.path.join(run.rundir, "C06_gen.v.broken"), "w") as f:
+                    f.write(open(GEN).read())
+            except OSError:
+                pass
+    else:
+        run.extra_cov["tie"] = "correspondence-only (%s)" % msg
     rng = run.rng
     terms, cases = [], []
 
@@ -1012,4 +1070,32 @@ def main(run):
             searching[0] = False
     run.search_fn = search
 
-    run.correspond("all", "C06", terms, cases)
+    # the model and (when they check) the regenerated definitions are evaluated on every case
+    reqs = ["From DV Require Import Gen.C06_gen."] if gen_check != "check" else []
+    failing = run.correspond("all", "C06", terms, cases, check=gen_check, requires=reqs)
+    if gen_check == "check_both" and (failing or run.corr_groups.get("all", {}).get("errors")):
+        # which of the two disagrees with the implementation?
+        try:
+            sub = failing[:200]
+            bad_model = run.correspond("diagnosis_model", "C06", [terms[i] for i in sub], [cases[i] for i in sub], check="check")
+            bad_gen = run.correspond("diagnosis_regenerated", "C06", [terms[i] for i in sub], [cases[i] for i in sub],
+                                     check="check_gen", requires=reqs)
+            run.notes.append("diagnosis: of %d disagreeing cases the hand model disagrees on %d, the regenerated definitions on %d"
+                             % (len(sub), len(bad_model), len(bad_gen)))
+        except Exception as e:  # noqa
+            run.notes.append("diagnosis step failed: %r" % (e,))
+    elif gen_check == "check" and ok:
+        # translated but not provably the model: do the regenerated definitions at least agree with the implementation?
+        try:
+            rc, out = vlib.coqc_file(GEN, cwd=vlib.COQ)
+            if rc == 0:
+                bad_gen = run.correspond("diagnosis_regenerated", "C06", terms, cases, check="check_gen",
+                                         requires=["From DV Require Import Gen.C06_gen."])
+                g = run.corr_groups.pop("diagnosis_regenerated", {})
+                run.disagreements = [d for d in run.disagreements if d.get("group") != "diagnosis_regenerated"]
+                run.notes.append("diagnosis: the regenerated definitions (not provably equal to the model) disagree with the "
+                                 "implementation on %d of %d cases (errors: %s)" % (len(bad_gen), len(terms), g.get("errors")))
+            else:
+                run.notes.append("diagnosis: the regenerated definitions do not compile: " + out[-400:])
+        except Exception as e:  # noqa
+            run.notes.append("diagnosis step failed: %r" % (e,))
